@@ -90,6 +90,9 @@ type Sim struct {
 // S is the current run.  One run per process.
 var S *Sim
 
+// Progress, when > 0, prints a line to stderr every that many events (debugging aid).
+var Progress uint64
+
 // New creates the run's kernel.  Must be called inside the bubble.
 func New(seed uint64, keepLog int) *Sim {
 	s := &Sim{
@@ -170,6 +173,9 @@ func (s *Sim) Run(horizon time.Duration) {
 			heap.Pop(&s.h)
 			s.mu.Unlock()
 			s.nEvents++
+			if Progress > 0 && s.nEvents%Progress == 0 {
+				println("PROGRESS events", s.nEvents, "now_ms", int64(now/time.Millisecond), next.tag)
+			}
 			if s.nEvents > s.MaxEvents {
 				s.Exhausted = true
 				return
